@@ -273,6 +273,8 @@ func New(s *simkit.Sim, rc *simkit.RunCtx) *World {
 	w.LogHook = InstallLogCapture()
 	// no background pruning goroutine in the session cache: its finalizer would fire outside the bubble
 	storage.SimSetSessionPruneInterval(0)
+	// a task inside storage.Atomically / GetAndDelete is not parked at the session-store seam
+	s.HeldProbes = append(s.HeldProbes, storage.SimSessionMutexHeld)
 	return w
 }
 
